@@ -1,4 +1,5 @@
 import Proofs.LinksMeasure
+import DeltaModel.Generated.LinkTargets
 /-!
 C19 — hyperlinks are well-formed, transparent, and point at the right target.
 
@@ -18,6 +19,19 @@ open Ansi Links
 
 /-- The model covers exactly the call sites found in the source. -/
 theorem site_inventory : modelledSites = Generated.linkSites := by decide
+
+/-- Which string each file-link site hands to `absolute_path` (table re-read from the source on every
+run: the argument expression of the `absolute_path` call feeding each `format_osc8_file_hyperlink`,
+and where that expression comes from, following the `let` bindings in scope): the file-link
+sites are exactly the modelled ones, and at every site the link **target** derives from the path the
+caller gave (`param`) or from its relativized form (`relativized`, which `absolute_path` joins to the
+user's directory) — never from the name rewritten by `--file-transformation` for display
+(`transformed`), nor from anything else. The link *text* may be the displayed name. -/
+theorem link_target_sources :
+    Generated.linkTargetTable.map (fun r => (r.1, r.2.1)) =
+      modelledSites.filter (fun s => s.2 != "format_raw_line" && s.2 != "_handle_commit_meta_header_line") ∧
+    ∀ r ∈ Generated.linkTargetTable, r.2.2.2.1 = "param" ∨ r.2.2.2.1 = "relativized" := by
+  decide
 
 /-! ### One link -/
 
